@@ -536,6 +536,10 @@ func (m *Message) unsetField(id int) {
 		if fieldSpec, ok := m.GetSpec().Fields[id]; ok {
 			m.fields[id] = createMessageField(fieldSpec)
 		}
+		// the cached bitmap is the field object that has just been replaced
+		if id == bitmapIdx {
+			m.cachedBitmap = nil
+		}
 	}
 }
 
